@@ -351,6 +351,20 @@ example :
       ("x-top", .arr [.null])]
     v.clean = true ∧ normalB descriptors 40 (.kind "openapi3.T") v = true := by decide
 
+/-- The value of the deep round trip does not depend on the fuel: once `rt` returns a value, every larger fuel
+    returns the same value (any table). So the fuel the driver passes can only matter by running out, which the
+    driver reports as such and the differential run counts as a disagreement — never by changing an answer. -/
+theorem rt_fuel_independent (T : List Desc) (n m : Nat) (h : n ≤ m) (s : Shape) (v r : JV)
+    (hr : rt T n s v = .ok r) : rt T m s v = .ok r :=
+  rt_mono T n m h s v r hr
+
+/-- … hence stability and the normal-form round trip hold across fuels: the first output, computed with any
+    fuel that suffices, is a fixed point under every fuel at least as large -/
+theorem rt_stable_any_fuel_partial (n m : Nat) (h : n ≤ m) (s : Shape) (v v1 : JV) (hc : v.clean = true)
+    (h1 : rt descriptors n s v = .ok v1) : rt descriptors m s v = .ok v1 ∧ rt descriptors m s v1 = .ok v1 :=
+  ⟨rt_fuel_independent descriptors n m h s v v1 h1,
+   rt_fuel_independent descriptors n m h s v1 v1 (rt_stable_partial n s v v1 hc h1)⟩
+
 /-- no reference is invented at any depth: an object that is not a reference (no `$ref` member, or one
     that is not a non-empty string) is not serialised as one (no hypothesis on the input) -/
 theorem rt_invents_no_ref (n : Nat) (s : Shape) (kvs kvs1 : Obj) (hs : refSafe s = true)
@@ -424,6 +438,63 @@ theorem resolved_refEarly_marshal (f : Shape → JV → Res JV) (d : Desc) (r ta
     marshalDeep f d (r.resolvedFrom target) = marshalDeep f d r ∧
     marshalDeep f d r = .ok [("$ref", r.fld "Ref")] := by
   simp [marshalDeep, Rec.resolvedFrom, h, hr]
+
+/-- The Loader route for whole documents, by induction over the tree of Go values: whatever the loader fills in
+    at the references of a parsed document (any target, any depth of resolution, any file: `ρ`, `σ` arbitrary),
+    serialising the loaded document gives exactly what serialising the merely parsed document gives — every `$ref`
+    as written, nothing of a resolved value anywhere in the output:
+    `marshal (resolve (unmarshal doc)) = marshal (unmarshal doc)`. -/
+theorem marshal_resolve_eq (ρ : String → GoV) (σ : String → (List (String × JV) → JV) × GoV) (g : GoV) :
+    marshalG (resolveG ρ σ g) = marshalG g := by
+  induction g with
+  | leaf v => rfl
+  | wrapper ref hv value ih =>
+    by_cases h : (ref != "") = true
+    · simp only [resolveG, marshalG, h, if_true]
+    · have h' : (ref != "") = false := by simpa using h
+      simp only [resolveG, marshalG, h', Bool.false_eq_true, if_false, ih]
+  | struct ref asm fields ih =>
+    by_cases h : (ref != "") = true
+    · simp only [resolveG, marshalG, h, if_true]
+    · have h' : (ref != "") = false := by simpa using h
+      simp only [resolveG, marshalG, h', Bool.false_eq_true, if_false, ih]
+  | nilL => rfl
+  | consL x rest ih1 ih2 => simp only [resolveG, marshalG, ih1, ih2]
+  | nilM => rfl
+  | consM k x rest ih1 ih2 => simp only [resolveG, marshalG, ih1, ih2]
+
+/-- the two models meet at a reference: what the JSON-valued deep model writes for an object with a non-empty
+    `$ref` (siblings or not) is what the tree model's marshaller prints for the wrapper, resolved or not -/
+theorem rt_ref_is_marshalG (n : Nat) (w : String) (d : Desc) (r : String) (sib : Obj) (hv : Bool) (value : GoV)
+    (hd : findDesc descriptors w = some d) (hr : r ≠ "") :
+    rt descriptors (n + 1) (.ref w) (.obj (("$ref", .str r) :: sib)) = .ok (marshalG (.wrapper r hv value)) := by
+  have h1 : refString (("$ref", JV.str r) :: sib) = some r := by simp [refString, lookup, hr]
+  show rtStep descriptors (rt descriptors n) (.ref w) _ = _
+  simp [rtStep, stepRef, hd, h1, marshalG, hr]
+
+/-- loading twice changes nothing more as far as the output goes (a reused loader, `ResolveRefsIn` after
+    `LoadFromData`) -/
+theorem marshal_resolve_twice (ρ ρ' : String → GoV) (σ σ' : String → (List (String × JV) → JV) × GoV) (g : GoV) :
+    marshalG (resolveG ρ' σ' (resolveG ρ σ g)) = marshalG g := by
+  rw [marshal_resolve_eq, marshal_resolve_eq]
+
+/-- non-vacuity: a document with a path item that is a reference, a path item with a parameter reference and a
+    schema reference two levels down; the loader fills in targets that are printed nowhere -/
+example :
+    let asm : List (String × JV) → JV := fun kvs => .obj kvs
+    let item := GoV.struct "" asm (.consM "parameters" (.consL (.wrapper "#/components/parameters/P" false (.leaf .null)) .nilL)
+      (.consM "get" (.struct "" asm (.consM "schema" (.wrapper "#/components/schemas/A" false (.leaf .null)) .nilM)) .nilM))
+    let doc := GoV.struct "" asm (.consM "paths" (.consM "/a" (.struct "#/paths/~1b" asm .nilM) (.consM "/b" item .nilM)) .nilM)
+    let ρ : String → GoV := fun _ => .leaf (.str "RESOLVED")
+    let σ : String → (List (String × JV) → JV) × GoV := fun _ => (asm, .consM "copied" (.leaf (.str "RESOLVED")) .nilM)
+    doc.hasRef = true ∧
+    (match resolveG ρ σ doc with
+     | .struct _ _ (.consM _ (.consM _ (.struct _ _ (.consM "copied" _ _)) _) _) => true | _ => false) = true ∧
+    (match marshalG (resolveG ρ σ doc) with
+     | .obj [("paths", .obj [("/a", .obj [("$ref", .str "#/paths/~1b")]),
+                             ("/b", .obj [("parameters", .arr [.obj [("$ref", .str "#/components/parameters/P")]]),
+                                          ("get", .obj [("schema", .obj [("$ref", .str "#/components/schemas/A")])])])])] => true
+     | _ => false) = true := by decide
 
 /-- the kinds that carry their own `$ref` (no wrapper) and are reached by the loader all have the early return -/
 theorem refEarly_kinds :
